@@ -1,6 +1,8 @@
 import ErbiumModel.Model.DnsRelay
 import ErbiumModel.Lemmas.DnsMessage
 import ErbiumModel.Lemmas.DnsTruncated
+import ErbiumModel.Lemmas.DnsReply
+import ErbiumModel.Lemmas.DnsSize
 /-! # C04 — every DNS response is well-formed and respects the transport's size limit -/
 namespace Erbium.Props.C04
 open Erbium Erbium.DnsWire Erbium.DnsRelay
@@ -165,6 +167,61 @@ theorem C04_tc_iff_truncated (p : Pkt) (ka kn kd : Nat) : (truncated p ka kn kd)
 theorem C04_complete_whenever_it_fits (p : Pkt) (hw : WfPkt p) (size size2 : Nat) (wire : Bytes) (hs : 512 ≤ size2)
     (hc : Complete p size wire) (hfit : wire.length ≤ size2) : serialiseWithSize p size2 = some wire :=
   complete_serialise p size2 wire hs hw.rcode (complete_fits hc hfit)
+
+/-- the header and question of a message with a decoder-accepted name fit every limit ≥ 512 (a name is at most 255
+    octets and compression never lengthens it) -/
+theorem question_fits (p : Pkt) (hn : NameOK p.qdomain) (size : Nat) (hs : 512 ≤ size) :
+    ∀ qb t0, pushName p.qdomain root 12 = some (qb, t0) → 12 + qb.length + 4 ≤ size := by
+  intro qb t0 h
+  have h1 := pushName_len _ hn.1 _ _ _ _ h
+  have h2 := hn.2.2
+  have h3 : Generated.Dns.nameOctetLimit = 255 := by decide
+  omega
+
+/-- the reply assembled from decoded messages meets the encoder's preconditions -/
+theorem reply_enc {bq br : Bytes} (hbq : Octets bq) (hbr : Octets br) {q r : Pkt}
+    (hq : parse bq = .ok q) (hr : parse br = .ok r) (ip ck : Bytes) : PktEnc (createInReply q r ip ck) := by
+  have hwq := (parse_wf hbq hq).1
+  have hwr := parse_wf hbr hr
+  have e := pktenc_of_wf hwr.1 hwr.2
+  have h : Generated.Dns.replyAuthorityFromUpstreamAuthority = true := by decide
+  exact { rcode := e.rcode, qname := hwq.qname.1, an := e.an, ad := e.ad,
+          ns := by
+            show ∀ rr ∈ (if Generated.Dns.replyAuthorityFromUpstreamAuthority then r.nameserver else r.answer), RREnc rr
+            rw [if_pos h]; exact e.ns }
+
+/-- **C04 (end to end, any transport limit).** For any strings of octets the decoder accepts as the query `q` and
+    the upstream reply `r`, and any limit between 512 and 65535 (UDP: `max(advertised, 512)`; TCP: 65535):
+    the response **exists** (the encoder does not panic), is **no longer than the limit**, and **parses** — to the
+    assembled reply as sent, or to that reply cut at a record boundary from the end with TC set, its header counts
+    being the numbers of records present. -/
+theorem C04_end_to_end (bq br : Bytes) (hbq : Octets bq) (hbr : Octets br) (q r : Pkt)
+    (hq : parse bq = .ok q) (hr : parse br = .ok r) (had : r.additional.length + 1 < 65536)
+    (ip ck : Bytes) (hip : ip.length < 65536) (hck : ck.length + 8 < 65536)
+    (size : Nat) (hs : 512 ≤ size) (hs2 : size < 65536) :
+    ∃ wire, serialiseWithSize (createInReply q r ip ck) size = some wire ∧ wire.length ≤ size ∧
+      (parse wire = .ok (asSent (createInReply q r ip ck)) ∨
+       ∃ ka kn kd, CutAt (asSent (createInReply q r ip ck)) ka kn kd ∧
+         parse wire = .ok (truncated (asSent (createInReply q r ip ck)) ka kn kd)) := by
+  obtain ⟨wire, h⟩ := serialise_total (by decide) _ (reply_enc hbq hbr hq hr ip ck) size hs
+  have hwq := (parse_wf hbq hq).1
+  have hwr := (parse_wf hbr hr).1
+  have hw := createInReply_wf hwq hwr had ip ck hip hck
+  have hlen : wire.length ≤ size :=
+    C04_never_exceeds_limit _ size wire h (question_fits _ (by exact hwq.qname) size hs)
+  have h' : serialiseWithSize (asSent (createInReply q r ip ck)) size = some wire := by rw [serialise_asSent]; exact h
+  exact ⟨wire, h, hlen, C04_every_response_decodes _ hw size hs wire h' (by omega)⟩
+
+/-- the UDP limit of a decoded query is within the range `C04_end_to_end` covers, and it is `max(advertised, 512)` -/
+theorem C04_udp_limit_in_range (bq : Bytes) (hbq : Octets bq) (q : Pkt) (hq : parse bq = .ok q) :
+    512 ≤ udpLimit q ∧ udpLimit q < 65536 ∧ udpLimit q = max q.bufsize 512 := by
+  have hw := (parse_wf hbq hq).1
+  have := hw.bufsize
+  have hp : Generated.Dns.prepareFloor = 512 := by decide
+  unfold udpLimit
+  rw [hp]
+  refine ⟨Nat.le_max_right _ _, ?_, rfl⟩
+  rw [Nat.max_def]; split <;> omega
 
 /-! Non-vacuity: a response with forty address records does not fit 512 octets; what is returned is cut inside
     the answer section and decodes to the message cut there (evaluated by the kernel on the executable model). -/
